@@ -16,6 +16,7 @@
 package gomatrixserverlib
 
 import (
+	"encoding/json"
 	"fmt"
 	"strings"
 
@@ -109,6 +110,19 @@ func checkNoDuplicateKeys(eventJSON []byte) error {
 		return true
 	})
 	return err
+}
+
+// checkSignaturesShape returns an error unless the "signatures" of the event, if any,
+// are an object of objects. Sign() has no way of reporting an error later on when it
+// adds a signature to them.
+func checkSignaturesShape(eventJSON []byte) error {
+	var event struct {
+		Signatures map[string]map[KeyID]json.RawMessage `json:"signatures"`
+	}
+	if err := json.Unmarshal(eventJSON, &event); err != nil {
+		return fmt.Errorf("gomatrixserverlib: invalid signatures: %w", err)
+	}
+	return nil
 }
 
 // SplitID splits a matrix ID into a local part and a server name.
